@@ -411,14 +411,86 @@ def buildCheck (k : Kind) (buckets : Nat → Nat) (p : LParsed) : Except LErr Un
     else if probingFull p buckets r.1 then .error .probingSize
     else .ok ()
 
-/-- constructing a model of the given family from ARPA bytes -/
-def load (k : Kind) (maxOrder : Nat) (multOk : Bool) (buckets : Nat → Nat) (s : Bytes) : Except LErr LParsed :=
+/-! ### trie: duplicates that meet in a merge (lm/trie_sort.cc) -/
+
+/-- bytes of one sort record of order `n`: `n` word ids + probability (+ back-off below the highest order) -/
+def trieEntrySize (order n : Nat) : Nat := 4 * n + (if n == order then 4 else 8)
+
+/-- `buffer_use` of `SortedFiles::SortedFiles`: the largest `entry_size * count` over the orders 2 … N (header counts) -/
+def trieBufferUse (p : LParsed) : Nat :=
+  ((List.range (p.order + 1)).map fun n => if 2 ≤ n then trieEntrySize p.order n * p.counts.getD (n - 1) 0 else 0).foldl max 0
+
+/-- the sort buffer: `min(max(config.building_memory, 1 MB), buffer_use)` (search_trie.cc:585, trie_sort.cc:222) -/
+def trieSortMem (p : LParsed) (buildingMemory : Nat) : Nat := min (max buildingMemory 1048576) (trieBufferUse p)
+
+def lexLe : List Nat → List Nat → Bool
+  | [], _ => true
+  | _ :: _, [] => false
+  | a :: as, b :: bs => if a < b then true else if b < a then false else lexLe as bs
+
+/-- some key occurs in two different batches of `b` consecutive records: sort (key, batch) by key and look at neighbours
+with equal keys (equal keys are contiguous after sorting; the stable sort keeps their batch numbers ascending, so a
+key whose occurrences span several batches shows a neighbour pair with different batches) -/
+def mergeF {α} (le : α → α → Bool) : Nat → List α → List α → List α
+  | 0, xs, ys => xs ++ ys
+  | _, [], ys => ys
+  | _, xs, [] => xs
+  | f+1, x :: xs, y :: ys => if le x y then x :: mergeF le f xs (y :: ys) else y :: mergeF le f (x :: xs) ys
+
+/-- one bottom-up pass: merge neighbouring runs -/
+def mergePass {α} (le : α → α → Bool) : List (List α) → List (List α)
+  | a :: b :: rest => mergeF le (a.length + b.length) a b :: mergePass le rest
+  | l => l
+
+/-- stable bottom-up merge sort by structural recursion (so that the kernel can evaluate it); `fuel` passes, each
+halving the number of runs: `length` passes always suffice -/
+def mergePasses {α} (le : α → α → Bool) : Nat → List (List α) → List (List α)
+  | 0, runs => runs
+  | f+1, runs => match runs with
+    | [] => []
+    | [r] => [r]
+    | _ => mergePasses le f (mergePass le runs)
+
+def sortBy {α} (le : α → α → Bool) (xs : List α) : List α :=
+  (mergePasses le xs.length (xs.map fun x => [x])).flatten
+
+def crossBatchDup (keys : List (List Word)) (b : Nat) : Bool :=
+  let tagged := keys.zipIdx.map fun (k, i) => (k, i / b)
+  let sorted := sortBy (fun x y => lexLe x.1 y.1) tagged
+  (sorted.zip (sorted.drop 1)).any fun (x, y) => x.1 == y.1 && x.2 != y.2
+
+/-- `ConvertToSorted` + `MergeSortedFiles(…, ThrowCombine())`: an order whose records do not fit the sort buffer is
+sorted in batches of `mem / entry_size` records which are then merged pairwise until one file is left; two equal
+n-grams that sit in different batches meet in some merge ⇒ FormatLoadException "Duplicate n-gram detected".
+Duplicates inside one batch survive (the common case: one batch). -/
+def trieDuplicateAcrossBatches (p : LParsed) (buildingMemory : Nat) : Bool :=
+  let mem := trieSortMem p buildingMemory
+  (List.range (p.order + 1)).any fun n =>
+    decide (2 ≤ n) &&
+      (let count := p.counts.getD (n - 1) 0
+       let batch := min count (mem / trieEntrySize p.order n)
+       decide (0 < batch) && decide (batch < count) && crossBatchDup ((p.grams.getD (n - 1) []).map (·.1)) batch)
+
+/-- number of sorted batches per order 2 … N (reported by the driver) -/
+def trieBatches (p : LParsed) (buildingMemory : Nat) : List Nat :=
+  let mem := trieSortMem p buildingMemory
+  (List.range (p.order + 1)).filterMap fun n =>
+    if 2 ≤ n then
+      let count := p.counts.getD (n - 1) 0
+      let batch := min count (mem / trieEntrySize p.order n)
+      some (if batch == 0 then 0 else (count + batch - 1) / batch)
+    else none
+
+/-- constructing a model of the given family from ARPA bytes (`buildingMemory` = config.building_memory, trie only) -/
+def load (k : Kind) (maxOrder : Nat) (multOk : Bool) (buckets : Nat → Nat) (s : Bytes) (buildingMemory : Nat := 1073741824) :
+    Except LErr LParsed :=
   match parse maxOrder multOk s with
   | .error e => .error e
   | .ok p =>
     match buildCheck k buckets p with
     | .error e => .error e
-    | .ok _ => .ok p
+    | .ok _ =>
+      if k == .trie && trieDuplicateAcrossBatches p buildingMemory then .error .format else .ok p
 
 /-! ## bridge to the L0 model of C01 -/
 
